@@ -47,7 +47,8 @@ MODEL_LABELS = ["VMgrTry", "VMgrLock", "VSessAdd", "VTmAdd", "VTmRemove", "VMgrU
 # what each property reads of a model/implementation difference (DESIGN 4.6). Difference kinds of `svdriver check`:
 # label (parked at another yield point), shlabel (the closer goroutine's label), blocked, bit, err, threads (a goroutine exists on one
 # side only), table, timers, sessions, listing, file, now, crash; plus hang / fatal of the harness.
-PROJ = {"C05": {"bit", "table", "timers", "crash", "hang", "fatal"},
+PROJ = {"C04": {"bit", "table", "timers", "crash", "hang", "fatal"},
+        "C05": {"bit", "table", "timers", "crash", "hang", "fatal"},
         "C06": {"bit", "table", "timers", "sessions", "listing", "crash", "hang", "fatal"},
         "C09": {"bit", "file", "sessions", "crash", "hang", "fatal"},
         "C11": {"bit", "err", "blocked", "file", "table", "shlabel", "crash", "hang", "fatal"},
@@ -1486,7 +1487,28 @@ def _wf_count(wf, sid, run):
             wf["first"] = "%s item %d: %s" % (sid, bad[0][0], bad[0][2][:300])
 
 
-ORACLES = {"C05": oracle_C05, "C06": oracle_C06, "C09": oracle_C09, "C11": oracle_C11, "C14": oracle_C14}
+def oracle_C04(run, images=None):
+    """C04 under races (model-independent, on the real observations): the C05 clauses (an Unlock / Renew racing the expiry answers
+    truthfully) and "a lease ends its hold": when everything has finished (and the manager was not shut down), a hold that was granted or
+    renewed with a lease and whose lease timer has FIRED (its expiry callback goroutine existed) is gone; and a leased hold that still
+    occupies the lock has its timer armed or its callback in flight — otherwise it would never expire. -> [(index, text, known_id|None)]"""
+    bad = list(oracle_C05(run, images))
+    last_x = [b for b in run.blocks if b.tag == "X"]
+    final = last_x[-1] if last_x else None
+    if final is None or final.k >= _mgr_shut_at(run):
+        return bad
+    if not all(st[0] in ("F", "E") for st in final.thr.values()):
+        return bad
+    fired = set(_callbacks(run).values())
+    for name, ent in sorted(final.tab.items()):
+        for key in ent[1]:
+            if (name, key) in fired and (name, key) not in final.tmr:
+                bad.append((final.k, "everything has finished: the lease of (%r,%r) has fired (its expiry callback ran and returned) and the hold still occupies "
+                                     "the lock, with no lease timer left: it never ends (table %r)" % (name, key, final.tab.get(name)), None))
+    return bad
+
+
+ORACLES = {"C04": oracle_C04, "C05": oracle_C05, "C06": oracle_C06, "C09": oracle_C09, "C11": oracle_C11, "C14": oracle_C14}
 
 
 # --------------------------------------------------------------------------------------------------- run_property
